@@ -4,9 +4,13 @@ package main
 
 import (
 	"fmt"
+	"sync"
 
 	"golang.org/x/tools/go/ssa"
 )
+
+var forkStats map[string]int
+var forkMu sync.Mutex
 
 type Decision struct {
 	Choice int    // branch: 1=true 0=false; choose: index; concretize: 0 = equal to Val, 1 = different
@@ -72,6 +76,7 @@ type Exec struct {
 	curCallPos      string
 	alloc           int64
 	maxSteps        int
+	curPos          string
 	overrides       map[string]*FuncV
 	uncheckedAssume bool
 	inOverride      bool
@@ -289,6 +294,15 @@ func (e *Exec) branch(c *Term) bool {
 	}
 	switch {
 	case tOK && fOK:
+		if forkStats != nil && len(e.stack) > 0 {
+			forkMu.Lock()
+			forkStats[e.stack[len(e.stack)-1].String()+" @"+e.curPos]++
+			if forkStats[e.stack[len(e.stack)-1].String()+" @"+e.curPos] < 6 {
+				fmt.Printf("FORK at %s depth=%d cond=%s\n", e.stack[len(e.stack)-1].String(), len(e.trace), c.String())
+			}
+			e.curPos = ""
+			forkMu.Unlock()
+		}
 		e.pushAlt(Decision{Choice: 0})
 		e.record(Decision{Choice: 1})
 		e.addPC(c)
